@@ -15,7 +15,7 @@
    Tie: exact replay of the traced fetch-add results of cooperatively scheduled runs through the extracted step function;
    multi-rank runs for the remote part. *)
 From Coq Require Import ZArith List.
-From RS Require Import TW.Flags Net.RemoteId TW.App TW.AppAbs.
+From RS Require Import TW.Flags Net.RemoteId TW.App TW.AppAbs TW.Worker TW.WorkerSafety TW.WorkerOnce TW.WorkerOnceProofs TW.WorkerOnceApp.
 From RS.Abs Require Import Abs AbsM ReachM.
 Import ListNotations.
 Local Open Scope Z_scope.
@@ -61,6 +61,42 @@ Theorem C06_remote_recognised_by_flag_word : forall nid rid ph, wf_ids nid rid p
   id_received (id_word nid rid ph) = nid * 16384 + (rid + 1) * 4.
 Proof. exact received_id_ge4. Qed.
 
+(* process.c level, on the executable worker model tied op by op to the code (TW/Worker.v): for EVERY program whose event
+   types stay below the reserved ones (types_okb, checked on every generated program by the correspondence run), every
+   checkpoint interval and EVERY script of deliveries, late hand-backs, cancellations, GVT announcements and fossil
+   collections, in every state between two script operations:
+     pd = everything pending (shared list, heap, held in flight), pr = the processed messages of all histories,
+     mk = the messages the retained markers point to;
+   no identity occurs twice in pd, in pr or in mk (nothing is delivered, processed or cancelled twice), an identity determines
+   its message, and the flag word says where the message is:  pending with word 0 or 1 and not processed | pending as the
+   cancellation notice of a processed message (word 3, and then it IS in a history) | processed (word 2, not pending);
+   a retained marker points to a message that was never cancelled (word 0 or 2) and that is still in a history unless it
+   lies below the GVT.  (Word 5 only exists inside process_msg.) *)
+Theorem C06_worker_exactly_once : forall (p : prog) (ck : nat), types_okb p = true -> forall (ops : list wop),
+  let w := fold_left (wstep p ck) ops (w_init p) in
+  let f := k_flags w in let pd := pend w in let pr := allprocs (k_lps w) in let mk := allmarks (k_lps w) in
+  NoDup (map wm_id pd) /\ NoDup (map wm_id pr) /\ NoDup (map wm_id mk) /\
+  (forall a b, In a (pd ++ pr ++ mk) -> In b (pd ++ pr ++ mk) -> wm_id a = wm_id b -> a = b) /\
+  (forall m, In m pd -> (fl f m = 3%N /\ In m pr) \/ ((fl f m = 0%N \/ fl f m = 1%N) /\ ~ In m pr)) /\
+  (forall m, In m pr -> (fl f m = 3%N /\ In m pd) \/ (fl f m = 2%N /\ ~ In m pd) \/ (fl f m = 5%N /\ ~ In m pd)) /\
+  (forall m, In m mk -> fl f m = 0%N \/ (fl f m = 2%N /\ (In m pr \/ (Z.of_N (tm m) < k_gvt w)))).
+Proof. exact worker_exactly_once. Qed.
+
+(* ... and the cancellation notice of a processed message always finds it: the model's error flag (the C loops of
+   match_anti_msg / do_rollback / fossil_lp_collect running off the history or the checkpoint log) is never raised *)
+Theorem C06_worker_cancellation_always_finds_its_message : forall (p : prog) (ck : nat), types_okb p = true ->
+  forall (ops : list wop), k_err (fold_left (wstep p ck) ops (w_init p)) = false.
+Proof. exact worker_never_errs. Qed.
+
+Theorem C06_worker_messages_are_where_they_are_addressed : forall (p : prog) (ck : nat), types_okb p = true -> forall (ops : list wop),
+  let w := fold_left (wstep p ck) ops (w_init p) in
+  (forall m, In m (pend w) -> (N.to_nat (e_dest (wm_ev m)) < length (k_lps w))%nat) /\
+  (forall l m, (l < length (k_lps w))%nat -> In (EProc m) (x_hist (get_lp w l)) -> N.to_nat (e_dest (wm_ev m)) = l).
+Proof. exact worker_destinations. Qed.
+
+Print Assumptions C06_worker_exactly_once.
+Print Assumptions C06_worker_cancellation_always_finds_its_message.
+Print Assumptions C06_worker_messages_are_where_they_are_addressed.
 Print Assumptions C06_flag_word_determines_location.
 Print Assumptions C06_invariant_all_interleavings.
 Print Assumptions C06_only_words_0_1_2_3_5.
